@@ -21,6 +21,7 @@ with Chameleon (no regex splitting, no AST rewriting).
   ["prefix", kind, e]                     python: string: not: exists: structure:
   ["string", [part...]]                   body of string:  part = ["lit", s] |
                                           ["v", name] ($name) | ["e", expr]
+  ["lambdadef", p, default, body]         (lambda p=default: body)()
   ["invalid", text]                       planted syntax error (C11/C19)
 """
 from __future__ import annotations
@@ -125,6 +126,11 @@ def src(e, sq="'"):
     if k == "lambda":
         return "(lambda " + ", ".join(e[1]) + ": " + src(e[2], sq) + ")(" + \
             ", ".join(src(a, sq) for a in e[3]) + ")"
+    if k == "lambdadef":
+        # ["lambdadef", param, default expr, body]: the default value is
+        # evaluated where the lambda is written
+        return "(lambda " + e[1] + "=" + src(e[2], sq) + ": " + \
+            src(e[3], sq) + ")()"
     if k == "listcomp":
         return "[" + src(e[1], sq) + " for " + e[2] + " in " + \
             src(e[3], sq) + "]"
@@ -312,6 +318,9 @@ class Evaluator:
             if len(args) != len(e[1]):
                 raise TypeError("lambda arity")
             return self._with_locals(dict(zip(e[1], args)), e[2])
+        if k == "lambdadef":
+            default = self._ev(e[2])      # in the enclosing scope
+            return self._with_locals({e[1]: default}, e[3])
         if k == "listcomp":
             it = self._ev(e[3])
             return [self._with_locals({e[2]: x}, e[1]) for x in it]
